@@ -445,8 +445,15 @@ impl<Writer: Write> Mp4Writer<Writer> {
 
     pub(crate) fn max_end_pts(&self) -> Option<u64> {
         fn track_end(samples: &[SampleInfo], last_delta: Option<u32>) -> Option<u64> {
-            let last = samples.last()?;
-            Some(last.pts + u64::from(last_delta.unwrap_or(0)))
+            // Largest presentation end time over all samples: with reordered (B-frame) video
+            // the last sample in decode order is not the one presented last.
+            samples
+                .iter()
+                .map(|s| {
+                    s.pts
+                        .saturating_add(u64::from(s.duration.or(last_delta).unwrap_or(0)))
+                })
+                .max()
         }
 
         let video_end = track_end(&self.video_samples, self.video_last_delta);
